@@ -82,7 +82,7 @@ type keyRec struct {
 }
 
 func famC16(t *testing.T, r *hx.Rng, o *hx.Out) {
-	n := hx.N(60, 2000)
+	n := hx.N(60, 1000)
 	var recs []any
 	emit := func(kind string, args []string, key []byte, tag string) {
 		o.Emit("key", append([]string{kind}, args...), hx.H(key), tag)
@@ -157,7 +157,7 @@ type wr struct {
 // famC16Stores drives the real keepers on one shared IBC store: prefix iteration per channel / client over mixed
 // v1, v2 and async content, and writes through ClientStore.
 func famC16Stores(t *testing.T, r *hx.Rng, o *hx.Out) {
-	hists := hx.N(60, 800)
+	hists := hx.N(60, 400)
 	cdc := codec.NewProtoCodec(codectypes.NewInterfaceRegistry())
 	for h := 0; h < hists; h++ {
 		key := storetypes.NewKVStoreKey("ibc")
